@@ -470,6 +470,8 @@ def main():
             elif st == "violation":
                 sig = {"layer": 2, "edit": r["edit"], "op": r["op"], "desc": r["desc"], "shapes": r["shapes"], "kind": r["kind"], "cse_relaxation_feasible": r.get("cse_relaxation_feasible")}
                 # mechanism field (known_findings.json): *_at returns its first argument when a coordinate/update tensor is empty
+                tgt_names = _NAME.findall(r["desc"].split(",")[0])
+                sig["update_target_with_repeated_axis_fails_at_run_time"] = bool(r["op"] in family.UPDATE and r["kind"] == "backend-computation-before-rejection" and len(tgt_names) != len(set(tgt_names)))
                 sig["zero_sized_coordinates_or_updates_of_an_update_op"] = bool(r["op"] in family.UPDATE and r["outcome"] == "returned" and any(0 in s_ for s_ in r["shapes"][1:]) and 0 not in r["shapes"][0])
                 rep.violation(sig, r["replay"], f"[{r['edit']}] einx.{r['op']}({r['desc']!r}, shapes={r['shapes']}, **{r['kwargs']}): {r['kind']}; einx -> {r['outcome']} {r.get('msg', '')}\n{r.get('replay_out', '')[-300:]}")
             elif st == "not-reproduced":
